@@ -35,13 +35,13 @@ func TestVerifC19SoundnessMHCV(t *testing.T) {
 		"invalid:honest-prover:mhcv:weight-mismatch", "invalid:honest-prover:mhcv:non-bit-weight-preserving",
 		"invalid:honest-prover:mhcv:non-bit", "invalid:honest-prover:mhcv:random-vector")
 	type pr struct{ length, maxw, chunk uint }
-	params := []pr{{1, 1, 1}, {5, 2, 3}, {4, 4, 2}, {4, 2, 2}, {10, 2, 3}, {10, 0, 3}, {8, 7, 4}, {16, 1, 5}, {20, 10, 30}, {4, 3, 1}, {6, 3, 8}, {6, 3, 9}, {2, 1, 2}}
-	shares := []uint8{2, 3, 5}
+	params := []pr{{1, 1, 1}, {5, 2, 3}, {4, 4, 2}, {4, 2, 2}, {10, 2, 3}, {10, 0, 3}, {8, 7, 4}, {16, 1, 5}, {20, 10, 30}, {4, 3, 1}, {6, 3, 8}, {6, 3, 9}, {2, 1, 2}, {65, 3, 1}}
+	shares := []uint8{2, 3, 5, 9}
 	if lib.Thorough() {
 		params = append(params, pr{100, 3, 10}, pr{64, 64, 8}, pr{33, 16, 7}, pr{255, 128, 16})
 		shares = append(shares, 4, 16, 255)
 	}
-	reps := lib.Scale(2, 6)
+	reps := lib.Scale(8, 16)
 	type cs struct {
 		p pr
 		n uint8
@@ -53,7 +53,13 @@ func TestVerifC19SoundnessMHCV(t *testing.T) {
 			if n > 16 && p.length > 128 {
 				continue
 			}
-			for k := 0; k < reps; k++ {
+			rp := reps
+			if n > 16 {
+				rp = 1 // cost grows linearly with the number of aggregators
+			} else if n > 5 {
+				rp = lib.Scale(1, 2)
+			}
+			for k := 0; k < rp; k++ {
 				cases = append(cases, cs{p, n, k})
 			}
 		}
